@@ -551,8 +551,8 @@ func c18Expected(mode string) string {
 // c18BindSuite: the generated-binding oracle.
 func c18BindSuite(r *Result, rng *rand.Rand, tier string) {
 	ops := c18Ops()
-	perOp := 6
-	sweepOps := 3
+	perOp := 12
+	sweepOps := 6
 	switch tier {
 	case "thorough":
 		perOp, sweepOps = 400, len(ops)
